@@ -590,7 +590,11 @@ _c("C04",
    "under the deep-copy shape of __setattr__ (C04_ctor_args); a class statement with an ImmutableStructure/FinalStructure/"
    "ImmutableField base raises for all hierarchies (C04_no_subclass); the full statement is refuted on today's tables. The model's "
    "handle kinds and effects are compared with typedpy inside Coq on every immutable class shape (quick: nesting <= 1 plus a sample "
-   "at 2-3; thorough: all 2038 shapes exhaustively) and the property is evaluated directly by observable snapshots. "
+   "at 2-3; thorough: all shapes exhaustively) and the property is evaluated directly by observable snapshots. The leaves of the "
+   "shape grammar include UNTYPED collections holding raw python lists/dicts - Array(), Deque(), Map() without items and a positional "
+   "prefix items=[Integer] followed by a free-form element - in both contexts; they are in the capability model too (DArrRaw, "
+   "DDeqRaw, DArrPre: whether the constructor argument stays aliased is computed from the generated init_copies_* facts and the "
+   "Field.__set__ type tuple, raw_seq_alias) and take part in the correspondence. "
    "Class options: on the two-component instance state (attributes, explicit-None markers; Struct/NoneFields.v) with the effect list "
    "of Structure.__setattr__ re-translated from the source (Gen/StructNoneFields.v): an instantiated instance of an immutable class "
    "refuses every assignment under EVERY combination of _enable_undefined_value/_ignore_none/_additional_properties/_required and "
